@@ -1,3 +1,5 @@
+//verif:v2only (root-module instantiation pending: API differences)
+
 package codecprops
 
 // C11 - schema validity constraints are enforced when encoding and when decoding.
